@@ -284,7 +284,7 @@ func (fx *FnExec) execLoop(li *loopInfo) {
 	lc := fx.loopContract(li)
 	// 1. invariants hold on entry
 	for _, inv := range lc.invs {
-		for i, nt := range fx.evalSpecSplit(inv.Expr, in, fx.old, li) {
+		for i, nt := range fx.evalSpecSplit(inv.Expr, in, fx.oldFor(in), li) {
 			e.addObl("contract", fmt.Sprintf("loop%d:inv%s%s:entry", li.ord, inv.labelStr(), partName(nt, i)), fx.partTags(inv, nt), in, nt.term, li.header.Instrs[0].Pos())
 		}
 	}
@@ -383,7 +383,7 @@ func (fx *FnExec) execLoop(li *loopInfo) {
 	}
 	// 4. assume invariants
 	for _, inv := range lc.invs {
-		g := fx.evalSpecBool(inv.Expr, st, fx.old, li)
+		g := fx.evalSpecBool(inv.Expr, st, fx.oldFor(st), li)
 		e.assume(st, g)
 	}
 	fx.loopHead[li] = st.clone()
@@ -402,7 +402,7 @@ func (fx *FnExec) execLoop(li *loopInfo) {
 			continue
 		}
 		for _, inv := range lc.invs {
-			for i, nt := range fx.evalSpecSplit(inv.Expr, bs, fx.old, li) {
+			for i, nt := range fx.evalSpecSplit(inv.Expr, bs, fx.oldFor(bs), li) {
 				e.addObl("contract", fmt.Sprintf("loop%d:inv%s%s:preserve", li.ord, inv.labelStr(), partName(nt, i)), fx.partTags(inv, nt), bs, nt.term, li.header.Instrs[0].Pos())
 			}
 		}
@@ -413,8 +413,8 @@ func (fx *FnExec) execLoop(li *loopInfo) {
 		case lc.blocking:
 			// no variant demanded
 		case lc.dec != nil:
-			v0 := fx.evalSpecInt(lc.dec.Expr, head, fx.old, li)
-			v1 := fx.evalSpecInt(lc.dec.Expr, bs, fx.old, li)
+			v0 := fx.evalSpecInt(lc.dec.Expr, head, fx.oldFor(head), li)
+			v1 := fx.evalSpecInt(lc.dec.Expr, bs, fx.oldFor(bs), li)
 			e.addObl("term", fmt.Sprintf("decreases:loop%d", li.ord), e.autoTags("term", fx.fn), bs, and("(< "+v1+" "+v0+")", "(>= "+v0+" 0)"), li.header.Instrs[0].Pos())
 		case li.rng != nil:
 			// map range: terminates when the body does not insert into the ranged map (finite maps)
@@ -1628,4 +1628,13 @@ func (fx *FnExec) partTags(c *Clause, nt namedTerm) []string {
 		return nt.tags
 	}
 	return fx.clauseTags(c)
+}
+
+// oldFor: the two-state reference of specs evaluated in st: the snapshot at the first lock acquisition on this path
+// (atomic functions), else the function's entry state.
+func (fx *FnExec) oldFor(st *State) *State {
+	if st != nil && st.acq != nil && fx.isTop {
+		return st.acq
+	}
+	return fx.old
 }
